@@ -142,6 +142,7 @@ const (
 	kBadKey   = "badkey"   // rule-list index: the entry of list 2 has an invalid filterKey
 	kEmptyURL = "emptyurl" // rule-list index: the entry of list 2 has an empty downloadUrl
 	kBadURL   = "badurl"   // rule-list index: the entry of list 2 has an unparsable downloadUrl
+	kDupBad   = "dupbad"   // rule-list index: an entry with the id of list 2 and an EMPTY url, followed by the valid entry of list 2
 	kDupID    = "dupid"    // rule-list index: a second entry with the id of list 2 and another URL
 	kBadSvcID = "badsvcid" // service index: the entry of service 2 has an invalid id
 
@@ -233,7 +234,7 @@ func isIndexShapeKind(pos, kind string) (ok bool) {
 	swapped, shape := splitKind(kind)
 	switch pos {
 	case posIdx:
-		return kind == kDupID || kind == kExtra || (swapped && shape == "") || in2(shape, idxEntryShapes)
+		return kind == kDupID || kind == kDupBad || kind == kExtra || (swapped && shape == "") || in2(shape, idxEntryShapes)
 	case posSvc:
 		return (swapped && shape == "") || in2(shape, svcEntryShapes)
 	default:
@@ -291,7 +292,7 @@ func kindsFor(pos string) (kinds []string) {
 	kinds = append(kinds, kOverlongLine)
 	switch pos {
 	case posIdx:
-		kinds = append(kinds, kNotJSON, kBadKey, kEmptyURL, kBadURL, kDupID,
+		kinds = append(kinds, kNotJSON, kBadKey, kEmptyURL, kBadURL, kDupID, kDupBad,
 			kNoURL, kSwap, swapPrefix+kNoURL, kExtra,
 			kNullURL, kNoKey, kNullKey, swapPrefix+kNullURL, swapPrefix+kNoKey, swapPrefix+kNullKey)
 	case posSvc:
@@ -319,7 +320,7 @@ func coreKind(pos, kind string) (ok bool) {
 	}
 	switch pos {
 	case posIdx:
-		return in2(kind, []string{kBadKey, kEmptyURL, kBadURL, kDupID, kNoURL, swapPrefix + kNoURL, kExtra})
+		return in2(kind, []string{kBadKey, kEmptyURL, kBadURL, kDupID, kDupBad, kNoURL, swapPrefix + kNoURL, kExtra})
 	case posSvc:
 		return kind == kBadSvcID
 	default:
@@ -438,6 +439,8 @@ func indexJSON(v int, kind string) (body string) {
 		ents = []map[string]any{e2, e1}
 	}
 	switch kind {
+	case kDupBad:
+		ents = []map[string]any{e1, {"downloadUrl": "", "filterKey": string(idL2)}, e2}
 	case kDupID:
 		ents = append(ents, map[string]any{"downloadUrl": "http://l2" + domain + "/dup", "filterKey": string(idL2)})
 	case kExtra:
